@@ -2,7 +2,7 @@
 from frontcheck import *
 
 PROP = "C10"
-THEOREMS = [tuple(x) for x in json.load(open(os.path.join(VERIF, "lib", "pins", PROP + ".json")))]
+THEOREMS = ["C10", "C10Load"]
 
 
 def main(tier, seed, replay=None):
